@@ -1,6 +1,642 @@
-//! C25 — not implemented yet.
+//! C25 — ORDER BY, LIMIT and OFFSET mean what they say.
+//!
+//! Generator (`order_limit`): one table `r` of 2–5 nullable columns over
+//! BIGINT/INTEGER/DOUBLE(finite multiples of 0.25)/VARCHAR/DATE/BOOLEAN with tiny
+//! value domains (heavy ties) and 0/20/50 % NULLs; 0–30 rows, or (1 case in 8;
+//! 1 in 3 in the thorough tier) 1000+ rows in ≥2 batches so the in-memory scan is
+//! multi-partition; 0–10 random batch cut points (→ up to 11 sorted runs, i.e.
+//! single-run, single-pass k-way and multi-pass merges when spilled).
+//! Statement: `SELECT [DISTINCT] items FROM r AS t1 [WHERE p] ORDER BY k1..k4
+//! [LIMIT l] [OFFSET o]`; keys are output aliases, ordinals, input columns that
+//! are not selected, or expressions over input columns; each ASC/DESC ×
+//! NULLS FIRST/LAST/default; LIMIT and OFFSET ∈ {absent,0,1,2,n−1,n,n+5,random}.
+//! Every case runs in TWO configurations: default memory (full sort, or the
+//! fused top-k when LIMIT has no OFFSET) and a tiny memory limit that forces
+//! the external sort to spill (measured from the context's spill counter).
+//! A second generator (`limit_in_derived`) puts ORDER BY/LIMIT/OFFSET inside a
+//! derived table whose order is total (keys cover every output column), with
+//! a filter above it: the LIMIT must be applied before the outer predicate.
+//!
+//! Oracle: `refsql` + the validity predicate of DESIGN §3.4
+//! (`refsql::compare_answer`: tie groups occupy the same positions; rows of a
+//! tie group cut by the LIMIT/OFFSET window are a sub-multiset of that group).
 use super::Property;
+use crate::data::*;
+use crate::refsql::Db;
+use crate::runner::*;
+use crate::sqlast::*;
+use crate::sqlgen::*;
+use proptest::prelude::*;
+use serde::{Deserialize, Serialize};
+
+#[path = "c25_util.rs"]
+mod util;
+use util::*;
+
+#[derive(Clone, Debug, Serialize, Deserialize)]
+pub struct SortCase {
+    pub sql_case: SqlCase,
+    /// memory limit (bytes) of the second, spilling configuration
+    pub spill_limit: usize,
+}
+
+const TYPES: [ColType; 7] = [ColType::Int, ColType::Int32, ColType::Double, ColType::Str, ColType::Date, ColType::Bool, ColType::Int];
+const NAMES: [&str; 5] = ["a", "b", "c", "d", "e"];
+
+/// table `r`: random schema, `small` rows or a base block repeated to 1000+ rows
+fn table_strategy(tier: Tier) -> BoxedStrategy<Table> {
+    let big_weight = tier.pick(1u32, 3);
+    let big_max = tier.pick(1300usize, 3000);
+    proptest::collection::vec((proptest::sample::select(TYPES.to_vec()), proptest::sample::select(vec![0u32, 20, 50])), 2..=5)
+        .prop_flat_map(move |spec| {
+            let cols: Vec<Column> = spec.iter().enumerate().map(|(i, (ty, _))| Column { name: NAMES[i].to_string(), ty: *ty }).collect();
+            let row = spec.iter().map(|(ty, pct)| small_value(*ty, *pct)).collect::<Vec<_>>();
+            let cols2 = cols.clone();
+            let small = proptest::collection::vec(row.clone(), 0..=30).prop_map(move |rows| Table { name: "r".into(), cols: cols.clone(), rows });
+            let big = (proptest::collection::vec(row, 20..=60), 1000usize..=big_max, any::<u16>()).prop_map(move |(base, n, rot)| {
+                // base block repeated with a rotation per repetition: heavy ties, every
+                // batch holds every key value
+                let mut rows = Vec::with_capacity(n);
+                let m = base.len();
+                let step = 1 + (rot as usize % m.max(1));
+                let mut i = 0usize;
+                while rows.len() < n {
+                    rows.push(base[(i * step + i / m) % m].clone());
+                    i += 1;
+                }
+                Table { name: "r".into(), cols: cols2.clone(), rows }
+            });
+            prop_oneof![7 => small, big_weight => big]
+        })
+        .boxed()
+}
+
+fn gen_profile() -> Profile {
+    Profile::from_spec("minimal+logic+like+is_distinct_from")
+}
+
+fn limit_choice(t: &mut Tape, n: usize) -> Option<u64> {
+    Some(match t.pick(10) {
+        0 | 1 => return None,
+        2 => 0,
+        3 => 1,
+        4 => 2,
+        5 => n.saturating_sub(1),
+        6 => n,
+        7 => n + 5,
+        _ => t.pick(n + 1),
+    } as u64)
+}
+fn offset_choice(t: &mut Tape, n: usize) -> Option<u64> {
+    Some(match t.pick(10) {
+        0..=4 => return None,
+        5 => 0,
+        6 => 1,
+        7 => 2,
+        8 => [n.saturating_sub(1), n, n + 5][t.pick(3)],
+        _ => t.pick(n + 1),
+    } as u64)
+}
+
+/// ORDER BY keys over the select list `out` (alias, type) and the input scope
+fn order_keys(g: &mut Gen, sc: &GenScope, out: &[(String, ColType)], only_output: bool) -> Vec<OrderKey> {
+    let nk = 1 + g.t.pick(4);
+    let mut keys = vec![];
+    for _ in 0..nk {
+        let kind = if only_output { g.t.pick(2) } else { g.t.pick(8) };
+        let e = match kind {
+            // output alias
+            0 | 2 | 3 if !out.is_empty() => Expr::col(&out[g.t.pick(out.len())].0),
+            // ordinal
+            1 if !out.is_empty() => Expr::int(g.t.pick(out.len()) as i64 + 1),
+            // input column (possibly not selected)
+            4 | 5 => {
+                let c = &sc.cols[g.t.pick(sc.cols.len())];
+                Expr::qcol(&c.rel, &c.name)
+            }
+            // expression over input columns
+            _ => {
+                let c = sc.cols[g.t.pick(sc.cols.len())].clone();
+                let ty = if c.ty == ColType::Int32 { ColType::Int } else { c.ty };
+                match g.expr(sc, ty, 1, false) {
+                    // a bare integer literal would be read as an ordinal
+                    Expr::Lit(_) => Expr::qcol(&c.rel, &c.name),
+                    e => e,
+                }
+            }
+        };
+        let desc = g.t.chance(45);
+        let nulls_first = match g.t.pick(5) {
+            0 | 1 => None,
+            2 | 3 => Some(true),
+            _ => Some(false),
+        };
+        keys.push(OrderKey { e, desc, nulls_first });
+    }
+    keys
+}
+
+fn build(tables: Vec<Table>, tape: Vec<u16>, cuts: Vec<usize>) -> SortCase {
+    let profile = gen_profile();
+    let mut g = Gen::new(tape, &profile);
+    let t = &tables[0];
+    let n = t.rows.len();
+    let sc = GenScope { cols: t.cols.iter().map(|c| ScopeCol { rel: "t1".into(), name: c.name.clone(), ty: c.ty }).collect(), outer: vec![] };
+    let from = vec![From::Table { name: "r".into(), alias: Some("t1".into()) }];
+    let mut features: Vec<String> = vec![];
+    let where_ = if g.t.chance(30) {
+        features.push("where".into());
+        Some(g.bool_expr(&sc, 1, false))
+    } else {
+        None
+    };
+    let distinct = g.t.chance(10);
+    let star = !distinct && g.t.chance(15);
+    let mut items = vec![];
+    let mut out: Vec<(String, ColType)> = vec![];
+    if star {
+        features.push("star".into());
+        items.push(Item::Star);
+        out = t.cols.iter().map(|c| (c.name.clone(), c.ty)).collect();
+    } else {
+        let ni = 1 + g.t.pick(4);
+        for i in 0..ni {
+            let c = sc.cols[g.t.pick(sc.cols.len())].clone();
+            let e = if g.t.chance(20) {
+                let ty = if c.ty == ColType::Int32 { ColType::Int } else { c.ty };
+                g.expr(&sc, ty, 1, false)
+            } else {
+                Expr::qcol(&c.rel, &c.name)
+            };
+            let a = format!("c{}", i + 1);
+            items.push(Item::Expr(e, Some(a.clone())));
+            out.push((a, c.ty));
+        }
+    }
+    if distinct {
+        features.push("distinct".into());
+    }
+    let order_by = order_keys(&mut g, &sc, &out, distinct);
+    let limit = limit_choice(&mut g.t, n);
+    let offset = offset_choice(&mut g.t, n);
+    let spill_limit = if n >= 1000 { [1usize, 2048, 16384, 65536][g.t.pick(4)] } else { [1usize, 1, 48, 160, 512][g.t.pick(5)] };
+    let sel = Select { distinct, items, from, where_, group: Group::None, having: None };
+    let mut query = Query::select(sel);
+    query.order_by = order_by;
+    query.limit = limit;
+    query.offset = offset;
+    features.push("order_by".into());
+    if limit.is_some() {
+        features.push("limit".into());
+    }
+    if offset.is_some() {
+        features.push("offset".into());
+    }
+    for f in &g.features {
+        features.push(f.to_string());
+    }
+    SortCase { sql_case: SqlCase { tables, query, cuts: vec![cuts], features }, spill_limit }
+}
+
+/// The select-list expression / input expression a sort key denotes.
+fn resolve_key(sel: &Select, t: &Table, k: &Expr) -> Expr {
+    let items: Vec<(Expr, String)> = sel
+        .items
+        .iter()
+        .flat_map(|it| match it {
+            Item::Star | Item::QStar(_) => t.cols.iter().map(|c| (Expr::qcol("t1", &c.name), c.name.clone())).collect::<Vec<_>>(),
+            Item::Expr(e, a) => vec![(e.clone(), a.clone().unwrap_or_default())],
+        })
+        .collect();
+    match k {
+        Expr::Lit(Value::Int(i)) if *i >= 1 && (*i as usize) <= items.len() => items[*i as usize - 1].0.clone(),
+        Expr::Col { rel: None, name } => items.iter().find(|(_, a)| a.eq_ignore_ascii_case(name)).map(|(e, _)| e.clone()).unwrap_or_else(|| k.clone()),
+        _ => k.clone(),
+    }
+}
+
+/// The values of every sort key for the rows that reach the sort (one column per key).
+fn key_values(c: &SqlCase) -> Option<Rows> {
+    let SetExpr::Select(sel) = &c.query.body else { return None };
+    let items: Vec<Item> = c.query.order_by.iter().enumerate().map(|(i, k)| Item::Expr(resolve_key(sel, &c.tables[0], &k.e), Some(format!("k{}", i)))).collect();
+    let q = Query::select(Select { distinct: false, items, from: sel.from.clone(), where_: sel.where_.clone(), group: Group::None, having: None });
+    Db::new(&c.tables).run(&q).ok().map(|a| a.rows)
+}
+
+/// (some key is NULL for a sorted row, some key declared NULLS FIRST is NULL for a sorted row)
+fn null_in_nulls_first_key(c: &SqlCase) -> (bool, bool) {
+    let Some(rows) = key_values(c) else { return (false, false) };
+    let mut any_null = false;
+    let mut nf_null = false;
+    for (j, k) in c.query.order_by.iter().enumerate() {
+        if rows.iter().any(|r| r[j].is_null()) {
+            any_null = true;
+            if k.nulls_first == Some(true) {
+                nf_null = true;
+            }
+        }
+    }
+    (any_null, nf_null)
+}
+
+/// Data condition of finding `sort-spill-merge-order`: the k-way merge of the
+/// spilled runs compares keys with NULLs hard-coded last *before* reversing for
+/// DESC, and only orders Int64/Int32/Float64/Utf8/Date32. It therefore
+/// disagrees with the order inside the runs exactly when some key
+///  (a) is NULL for a sorted row and is declared ASC NULLS FIRST or DESC NULLS LAST
+///      (= the default for DESC), or
+///  (b) is of another type (BOOLEAN here) with two distinct non-NULL values.
+fn merge_comparator_disagrees(c: &SqlCase) -> bool {
+    let Some(rows) = key_values(c) else { return false };
+    for (j, k) in c.query.order_by.iter().enumerate() {
+        let has_null = rows.iter().any(|r| r[j].is_null());
+        if has_null && k.nulls_first.unwrap_or(false) != k.desc {
+            return true;
+        }
+        let mut bools = rows.iter().filter_map(|r| if let Value::Bool(b) = r[j] { Some(b) } else { None });
+        if let Some(first) = bools.next() {
+            if bools.any(|b| b != first) {
+                return true;
+            }
+        }
+    }
+    false
+}
+
+/// Is a tie group of the full order cut by the OFFSET or LIMIT boundary?
+fn tie_at_boundary(a: &crate::refsql::RefAnswer) -> bool {
+    let Some((full, groups)) = &a.sorted_full else { return false };
+    let n = full.len();
+    let off = (a.offset.unwrap_or(0) as usize).min(n);
+    let end = match a.limit {
+        Some(l) => (off + l as usize).min(n),
+        None => n,
+    };
+    let cut = |p: usize| p > 0 && p < n && groups[p - 1] == groups[p];
+    (a.limit.is_some() && cut(end)) || (a.offset.is_some() && cut(off))
+}
+
+// ---------------------------------------------------------------------------
+// known findings (spilled external sort)
+// ---------------------------------------------------------------------------
+
+/// Number of batches the table is registered in. With a spilling memory limit
+/// the external sort writes one sorted run per group of input batches, so ≥2
+/// batches is the (slightly over-approximating) condition for "≥2 runs are merged".
+fn batches(c: &SqlCase) -> usize {
+    let n = c.tables[0].rows.len();
+    let mut pts: Vec<usize> = c.cuts.first().cloned().unwrap_or_default().into_iter().map(|x| x.min(n)).collect();
+    pts.sort();
+    pts.len() + 1
+}
+
+pub const KF_FETCH: &str = "sort-spill-ignores-fetch";
+pub const KF_MERGE: &str = "sort-spill-merge-order";
+
+fn classify(c: &SqlCase, _ev: &Ev, reference: &crate::refsql::RefAnswer, _cfg: &EngineCfg, out: &RunOut, msg: &str) -> Option<&'static str> {
+    // both findings live in the spilled branch of ExternalSortExec
+    if out.spilled == 0 {
+        return None;
+    }
+    let Ok(got) = &out.rows else { return None };
+    let q = &c.query;
+    // (DISTINCT: the sort input comes from a hash aggregate, which emits several batches on its own)
+    let distinct = matches!(&q.body, SetExpr::Select(s) if s.distinct);
+    let merge_sig = (batches(c) >= 2 || distinct) && merge_comparator_disagrees(c);
+    // (1) spilled sort fused with LIMIT (no OFFSET / OFFSET 0): the fetch is
+    // dropped and every sorted row comes back. To keep searching behind it, the
+    // rows returned must still be the complete, correctly ordered sort output.
+    if q.limit.is_some() && q.offset.unwrap_or(0) == 0 && msg.starts_with("row count") {
+        if let Some((full, _)) = &reference.sorted_full {
+            if got.len() == full.len() && got.len() > q.limit.unwrap() as usize {
+                let mut unlimited = reference.clone();
+                unlimited.limit = None;
+                unlimited.offset = None;
+                unlimited.rows = full.clone();
+                return match crate::refsql::compare_answer(&unlimited, got, 1e-9) {
+                    Ok(()) => Some(KF_FETCH),
+                    Err(_) if merge_sig => Some(KF_MERGE),
+                    Err(_) => None,
+                };
+            }
+        }
+        return None;
+    }
+    // (2) ≥2 sorted runs merged with a comparator that disagrees with the run order
+    if merge_sig && msg.starts_with("rows at output positions") {
+        return Some(KF_MERGE);
+    }
+    None
+}
+
+pub struct OrderLimit;
+impl Check for OrderLimit {
+    type Case = SortCase;
+    fn name(&self) -> &'static str {
+        "order_limit"
+    }
+    fn rule(&self) -> &'static str {
+        "both configurations answered, the spilling configuration really spilled, and (a tie group of the full sort key is cut by the LIMIT or OFFSET boundary, or a sort key declared NULLS FIRST is NULL for some sorted row)"
+    }
+    fn cases(&self, tier: Tier) -> u32 {
+        tier.pick(8000, 150_000)
+    }
+    fn max_shrink_iters(&self) -> u32 {
+        1200
+    }
+    fn strategy(&self, tier: Tier) -> BoxedStrategy<SortCase> {
+        table_strategy(tier)
+            .prop_flat_map(|t| {
+                let n = t.rows.len();
+                (Just(vec![t]), proptest::collection::vec(any::<u16>(), 0..70), proptest::collection::vec(0..=n.max(1), 0..=10))
+            })
+            .prop_map(|(tables, tape, cuts)| build(tables, tape, cuts))
+            .boxed()
+    }
+    fn test(&self, case: &SortCase, obs: &mut Obs) -> Verdict {
+        let c = &case.sql_case;
+        let cfgs = [EngineCfg::mem("mem"), EngineCfg::mem("spill").limit(case.spill_limit)];
+        let out = judge_multi(c, &cfgs, obs, 1e-9, classify, true);
+        let Some(reference) = &out.reference else { return out.verdict };
+        // path labels
+        for r in &out.per_cfg {
+            if r.answered.is_none() {
+                continue;
+            }
+            let plan = r.plan.as_deref().unwrap_or("");
+            let path = if r.spilled {
+                "spilled"
+            } else if plan.lines().any(|l| l.trim() == "Limit") || c.query.limit.is_none() {
+                "full_sort"
+            } else {
+                "fused_topk"
+            };
+            obs.label(format!("path:{}", path));
+            if r.spilled {
+                obs.label(format!("spilled_batches:{}", batches(c).min(9)));
+            }
+        }
+        let (any_null, nf_null) = null_in_nulls_first_key(c);
+        let tie = tie_at_boundary(reference);
+        if tie {
+            obs.label("tie_at_boundary");
+        }
+        if any_null {
+            obs.label("null_in_key");
+        }
+        if nf_null {
+            obs.label("null_in_nulls_first_key");
+        }
+        obs.label(format!("keys:{}", c.query.order_by.len()));
+        obs.label(format!("rows:{}", if c.tables[0].rows.len() >= 1000 { "1000+" } else { "small" }));
+        let spilled = out.per_cfg.iter().any(|r| r.spilled && r.answered.is_some());
+        obs.nontrivial(out.answered() == 2 && spilled && (tie || nf_null));
+        out.verdict
+    }
+}
+
+// ---------------------------------------------------------------------------
+// LIMIT/OFFSET inside a derived table with a TOTAL order, filtered from outside
+// ---------------------------------------------------------------------------
+
+fn build_derived(tables: Vec<Table>, tape: Vec<u16>, cuts: Vec<usize>) -> SortCase {
+    let profile = gen_profile();
+    let mut g = Gen::new(tape, &profile);
+    let t = &tables[0];
+    let n = t.rows.len();
+    let sc = GenScope { cols: t.cols.iter().map(|c| ScopeCol { rel: "t1".into(), name: c.name.clone(), ty: c.ty }).collect(), outer: vec![] };
+    let mut features: Vec<String> = vec!["derived".into(), "order_by".into()];
+    // inner select: 1-3 plain columns (distinct columns so the order below is total)
+    let ni = 1 + g.t.pick(3.min(sc.cols.len()));
+    let mut picked: Vec<usize> = vec![];
+    for _ in 0..ni {
+        let i = g.t.pick(sc.cols.len());
+        if !picked.contains(&i) {
+            picked.push(i);
+        }
+    }
+    let mut items = vec![];
+    let mut out: Vec<ScopeCol> = vec![];
+    for (j, &i) in picked.iter().enumerate() {
+        let c = &sc.cols[i];
+        let a = format!("c{}", j + 1);
+        items.push(Item::Expr(Expr::qcol("t1", &c.name), Some(a.clone())));
+        out.push(ScopeCol { rel: "d".into(), name: a, ty: c.ty });
+    }
+    let inner_where = if g.t.chance(20) { Some(g.bool_expr(&sc, 1, false)) } else { None };
+    // total order: every output column is a key, in a random rotation
+    let rot = g.t.pick(out.len());
+    let mut order_by = vec![];
+    for j in 0..out.len() {
+        let c = &out[(j + rot) % out.len()];
+        let desc = g.t.chance(45);
+        let nulls_first = match g.t.pick(5) {
+            0 | 1 => None,
+            2 | 3 => Some(true),
+            _ => Some(false),
+        };
+        order_by.push(OrderKey { e: Expr::col(&c.name), desc, nulls_first });
+    }
+    let mut inner = Query::select(Select { distinct: false, items, from: vec![From::Table { name: "r".into(), alias: Some("t1".into()) }], where_: inner_where, group: Group::None, having: None });
+    inner.order_by = order_by;
+    // always a LIMIT or an OFFSET (that is the point); mostly windows that really cut
+    if n >= 2 && g.t.chance(70) {
+        inner.limit = Some(1 + g.t.pick(n - 1) as u64);
+        if g.t.chance(35) {
+            inner.offset = Some(g.t.pick(n / 2 + 1) as u64);
+        }
+    } else {
+        inner.limit = limit_choice(&mut g.t, n);
+        inner.offset = offset_choice(&mut g.t, n);
+    }
+    if inner.limit.is_none() && inner.offset.is_none() {
+        inner.limit = Some((n / 2) as u64);
+    }
+    features.push("limit".into());
+    let dsc = GenScope { cols: out.clone(), outer: vec![] };
+    let outer_where = if g.t.chance(90) {
+        features.push("where".into());
+        Some(if g.t.chance(60) {
+            // selective single-column predicate
+            let col = out[g.t.pick(out.len())].clone();
+            let e = Expr::qcol("d", &col.name);
+            match g.t.pick(4) {
+                0 => Expr::IsNull { e: Box::new(e), neg: g.t.chance(50) },
+                _ if col.ty == ColType::Bool => e,
+                _ => {
+                    let op = [BinOp::Eq, BinOp::Lt, BinOp::Ne, BinOp::Le, BinOp::Gt, BinOp::Ge][g.t.pick(6)];
+                    let ty = if col.ty == ColType::Int32 { ColType::Int } else { col.ty };
+                    Expr::bin(e, op, g.literal(ty))
+                }
+            }
+        } else {
+            g.bool_expr(&dsc, 1, false)
+        })
+    } else {
+        None
+    };
+    let outer_items: Vec<Item> = if g.t.chance(25) {
+        features.push("global_count".into());
+        vec![Item::Expr(Expr::count_star(), Some("n".into()))]
+    } else {
+        out.iter().map(|c| Item::Expr(Expr::qcol("d", &c.name), Some(format!("o_{}", c.name)))).collect()
+    };
+    let spill_limit = [1usize, 1, 48, 160, 512][g.t.pick(5)];
+    let sel = Select {
+        distinct: false,
+        items: outer_items,
+        from: vec![From::Derived { q: Box::new(inner), alias: "d".into(), cols: None }],
+        where_: outer_where,
+        group: Group::None,
+        having: None,
+    };
+    for f in &g.features {
+        features.push(f.to_string());
+    }
+    SortCase { sql_case: SqlCase { tables, query: Query::select(sel), cuts: vec![cuts], features }, spill_limit }
+}
+
+pub const KF_PUSH: &str = "filter-pushed-below-limit";
+
+/// The statement a predicate pushdown through LIMIT turns the case into:
+/// `SELECT items FROM (SELECT * FROM (inner without LIMIT/OFFSET) d WHERE w ORDER BY … LIMIT l OFFSET o) d`.
+fn pushed_query(c: &SqlCase) -> Option<Query> {
+    let SetExpr::Select(sel) = &c.query.body else { return None };
+    let (Some(From::Derived { q, alias, cols }), Some(w)) = (sel.from.first(), &sel.where_) else { return None };
+    let mut unlimited = (**q).clone();
+    unlimited.limit = None;
+    unlimited.offset = None;
+    unlimited.order_by = vec![];
+    let filtered = Query {
+        with: vec![],
+        body: SetExpr::Select(Box::new(Select {
+            distinct: false,
+            items: vec![Item::Star],
+            from: vec![From::Derived { q: Box::new(unlimited), alias: alias.clone(), cols: cols.clone() }],
+            where_: Some(w.clone()),
+            group: Group::None,
+            having: None,
+        })),
+        order_by: q.order_by.clone(),
+        limit: q.limit,
+        offset: q.offset,
+    };
+    Some(Query::select(Select {
+        distinct: false,
+        items: sel.items.clone(),
+        from: vec![From::Derived { q: Box::new(filtered), alias: alias.clone(), cols: cols.clone() }],
+        where_: None,
+        group: Group::None,
+        having: None,
+    }))
+}
+
+fn classify_derived(c: &SqlCase, _ev: &Ev, _r: &crate::refsql::RefAnswer, _cfg: &EngineCfg, out: &RunOut, _msg: &str) -> Option<&'static str> {
+    let SetExpr::Select(sel) = &c.query.body else { return None };
+    let Some(From::Derived { q, .. }) = sel.from.first() else { return None };
+    let Ok(got) = &out.rows else { return None };
+    // (0) the outer predicate was evaluated below the derived table's LIMIT/OFFSET:
+    // the engine's answer is exactly the answer of that (different) statement
+    if let Some(p) = pushed_query(c) {
+        if let Ok(a) = Db::new(&c.tables).run(&p) {
+            if multiset_eq(&a.rows, got, 1e-9) {
+                return Some(KF_PUSH);
+            }
+        }
+    }
+    // the spilled sort inside the derived table has the same two defects as a
+    // top-level spilled sort; the statement shape decides which one can apply
+    if out.spilled == 0 {
+        return None;
+    }
+    let inner = SqlCase { tables: c.tables.clone(), query: (**q).clone(), cuts: c.cuts.clone(), features: vec![] };
+    if batches(c) >= 2 && merge_comparator_disagrees(&inner) {
+        return Some(KF_MERGE);
+    }
+    if q.limit.is_some() && q.offset.unwrap_or(0) == 0 {
+        // fetch dropped: the answer is exactly that of the statement without the inner LIMIT
+        let mut no_limit = c.query.clone();
+        if let SetExpr::Select(s2) = &mut no_limit.body {
+            if let Some(From::Derived { q: q2, .. }) = s2.from.first_mut() {
+                q2.limit = None;
+                q2.offset = None;
+            }
+        }
+        if let Ok(a) = Db::new(&c.tables).run(&no_limit) {
+            if multiset_eq(&a.rows, got, 1e-9) {
+                return Some(KF_FETCH);
+            }
+        }
+    }
+    None
+}
+
+pub struct LimitInDerived;
+impl Check for LimitInDerived {
+    type Case = SortCase;
+    fn name(&self) -> &'static str {
+        "limit_in_derived"
+    }
+    fn rule(&self) -> &'static str {
+        "the engine answered and evaluating the outer predicate BEFORE the derived table's LIMIT/OFFSET (the wrong plan a predicate pushdown through LIMIT produces) would give a different answer than the statement's"
+    }
+    fn cases(&self, tier: Tier) -> u32 {
+        tier.pick(3000, 60_000)
+    }
+    fn max_shrink_iters(&self) -> u32 {
+        1200
+    }
+    fn strategy(&self, _tier: Tier) -> BoxedStrategy<SortCase> {
+        let small = proptest::collection::vec((proptest::sample::select(TYPES.to_vec()), proptest::sample::select(vec![0u32, 20, 50])), 2..=4).prop_flat_map(|spec| {
+            let cols: Vec<Column> = spec.iter().enumerate().map(|(i, (ty, _))| Column { name: NAMES[i].to_string(), ty: *ty }).collect();
+            let row = spec.iter().map(|(ty, pct)| small_value(*ty, *pct)).collect::<Vec<_>>();
+            proptest::collection::vec(row, 0..=24).prop_map(move |rows| Table { name: "r".into(), cols: cols.clone(), rows })
+        });
+        small
+            .prop_flat_map(|t| {
+                let n = t.rows.len();
+                (Just(vec![t]), proptest::collection::vec(any::<u16>(), 0..60), proptest::collection::vec(0..=n.max(1), 0..=4))
+            })
+            .prop_map(|(tables, tape, cuts)| build_derived(tables, tape, cuts))
+            .boxed()
+    }
+    fn test(&self, case: &SortCase, obs: &mut Obs) -> Verdict {
+        let c = &case.sql_case;
+        let cfgs = [EngineCfg::mem("mem"), EngineCfg::mem("spill").limit(case.spill_limit)];
+        let out = judge_multi(c, &cfgs, obs, 1e-9, classify_derived, false);
+        if out.reference.is_none() {
+            return out.verdict;
+        }
+        // non-triviality: would "filter first, then limit" give another answer?
+        let mut nt = false;
+        if let (Some(p), Some(reference)) = (pushed_query(c), &out.reference) {
+            if let Ok(a) = Db::new(&c.tables).run(&p) {
+                if !multiset_eq(&a.rows, &reference.rows, 0.0) {
+                    nt = true;
+                    obs.label("pushdown_would_change_answer");
+                }
+            }
+        }
+        for r in &out.per_cfg {
+            if r.spilled && r.answered.is_some() {
+                obs.label("path:spilled");
+            }
+        }
+        obs.nontrivial(nt && out.answered() >= 1);
+        out.verdict
+    }
+}
 
 pub fn property() -> Property {
-    Property { id: "C25", level: "exploration", assumptions: &[], checks: vec![] }
+    Property {
+        id: "C25",
+        level: "exploration",
+        assumptions: &[
+            "the reference evaluator refsql implements ORDER BY (default NULLS LAST in both directions, as binder.rs documents), LIMIT and OFFSET; answers are compared up to ties with refsql::compare_answer (DESIGN §3.4)",
+            "sort keys are finite doubles (multiples of 0.25), no NaN/-0.0; strings compare bytewise",
+            "the spilled path is reached with ExecutionConfig::with_memory_limit; 'spilled' is measured from the context's MemoryPool::spilled() counter",
+            "an engine error is an allowed outcome (labelled), a wrong answer is not",
+        ],
+        checks: vec![Box::new(OrderLimit), Box::new(LimitInDerived)],
+    }
 }
